@@ -41,6 +41,9 @@ pub fn cmd(_args: &[String]) {
         for m in job["modules"].as_array().cloned().unwrap_or_default() {
             vm.get_database_mut().add_module(m[0].as_str().unwrap().to_string(), m[1].as_str().unwrap());
         }
+        for w in job["warmup"].as_array().cloned().unwrap_or_default() {
+            let _ = run_any(&vm, "warm", w.as_str().unwrap_or(""));
+        }
         let stress = job["gc_stress"].as_u64().unwrap_or(0) as usize;
         gluon::vm::verif::set_global_stress(stress);
         let lists: Vec<Vec<String>> = job["threads"].as_array().cloned().unwrap_or_default().iter()
@@ -55,6 +58,15 @@ pub fn cmd(_args: &[String]) {
                 let r = run_programs(&child, tid, &progs);
                 (r, child)
             }).unwrap());
+        }
+        // Locks.tla scenario ParentCollects: the thread that owns the root keeps collecting (root + every child heap)
+        // while the children run on their own OS threads
+        let mut parent_collections = 0u64;
+        if job["parent_collects"] == true {
+            while !handles.iter().all(|h| h.is_finished()) {
+                vm.collect();
+                parent_collections += 1;
+            }
         }
         let mut results = Vec::new();
         let mut children = Vec::new();
@@ -71,7 +83,7 @@ pub fn cmd(_args: &[String]) {
         let ticks: Vec<i64> = host::GLOBAL_LOG.lock().unwrap().iter().map(|e| e.1).collect();
         drop(children);
         std::mem::forget(vm);
-        json!({"id": job["id"], "status": "ok", "results": results, "ticks": ticks, "dangling": dangling})
+        json!({"id": job["id"], "status": "ok", "results": results, "ticks": ticks, "dangling": dangling, "parent_collections": parent_collections})
     });
 }
 
